@@ -6,3 +6,9 @@ import JominiModel.Props.C12
 #print axioms Jomini.Props.C12.C12_utf8
 #print axioms Jomini.Props.C12.C12_valid
 #print axioms Jomini.Props.C12.C12_utf8_borrowed_sound
+#print axioms Jomini.Props.C12.C12_bridge_tables
+#print axioms Jomini.Props.C12.C12_bridge_textde_w1252
+#print axioms Jomini.Props.C12.C12_bridge_textde_utf8
+#print axioms Jomini.Props.C12.C12_bridge_json_w1252
+#print axioms Jomini.Props.C12.C12_bridge_json_utf8
+#print axioms Jomini.Props.C12.C12_bridge_binde_w1252
